@@ -495,6 +495,9 @@ def run(ctx: Check, tree: Tree) -> None:
     ctx.section(check_descent, ctx, tree)
     ctx.section(check_arg_order, ctx, tree)
     ctx.section(check_internal_rebuild, ctx, tree)
+    from .c15 import check_reentrant_new
+
+    ctx.section(check_reentrant_new, ctx, tree)  # "reproduced by rebuilding it from its own arguments" for the array helper classes
     ctx.section(check_precedence, ctx, tree, prefixes=("ampform",))
 
     # ---- R-ARITY
